@@ -100,9 +100,9 @@ def timeout(duration, func, *args, **kwargs):
     else:
         if target_thread.exc_info[0] is not None:
             ei = target_thread.exc_info
-            # Python 2 had the three-argument raise statement; thanks to PEP
-            # 3109 for showing how to convert that to valid Python 3 statements.
-            e = ei[0](ei[1])
+            # Re-raise the very exception object: building a new one from the
+            # class fails for constructors that take other arguments.
+            e = ei[1]
             e.__traceback__ = ei[2]
             e.exc_info = target_thread.exc_info
             raise e
